@@ -85,7 +85,10 @@ def monitor_with_ops(ctx):
     return monitor
 
 
-BAD_KINDS = ["fail", "error", "uxsuccess", "subFail", "subFail2", "errTearDown", "errSetUp", "errCleanup", "bodyAndTearDown"]
+BAD_KINDS = ["fail", "error", "uxsuccess", "subFail", "subFail2", "errTearDown", "errSetUp", "errCleanup", "bodyAndTearDown",
+             # a bad outcome followed, in the same test, by an outcome that is none (a skip in a later sub-test, in
+             # tearDown, in a clean-up): the failure has been recorded all the same
+             "subFailThenSkip", "failThenSkipTearDown", "errThenSkipCleanup", "subSkipThenFail"]
 
 
 def gen_cases(ctx):
